@@ -20,8 +20,8 @@ def gen_cubes(tier, seed):
     rs = np.random.RandomState(seed + 8)
     quick = tier == "quick"
     cubes = []
-    nd = -9999
     for _ in range(40 if quick else 400):
+        nd = rng.choice([-9999, -9999, -32768, -1, 32767])
         T = rng.choice([4, 8, 12, 24, 36])
         dtype = rng.choice(["int16", "float64", "float32"])
         base = rs.gamma(rng.choice([0.5, 2.0, 20.0]), rng.choice([5.0, 50.0]), T)
@@ -77,6 +77,7 @@ def gen_cubes(tier, seed):
     # low-variance calibration windows with later observations at many ratios of the mean: finite indices far
     # beyond the int16 range (tail probabilities between 1e-308 and 1e-235) as well as exact 0 / 1
     for _ in range(8 if quick else 80):
+        nd = rng.choice([-9999, -32768])
         cv = rng.choice([0.01, 0.03, 0.1])
         T = 36
         sp = 24
